@@ -59,7 +59,7 @@ SetParents == Modules \cup Sections \cup Intervals
 Children  == Nodes \ IRs
 LazyOwners == Sections \cup Intervals
 TagHolders == IRs \cup Modules \cup Sections \cup Exprs
-ScalHolders == IRs \cup Modules \cup Sections \cup Symbols \cup CodeBlocks \cup Exprs
+ScalHolders == IRs \cup Modules \cup Sections \cup Symbols \cup CodeBlocks \cup DataBlocks \cup Exprs
 
 \* The five set-valued parent/child relations ("mod", the IR's module list, is the sixth).
 Rels == {"sec", "sym", "prx", "biv", "blk"}
@@ -80,6 +80,8 @@ FieldsOf(h) == IF h \in IRs THEN {"version"}     \* "CUR" is this API's protobuf
                ELSE IF h \in Sections THEN {"name"}
                ELSE IF h \in Symbols THEN {"at_end"}
                ELSE IF h \in CodeBlocks THEN {"decode_mode"}
+               \* "T": the node with this UUID, offset and size is (now) a CodeBlock -- the user replaced the object
+               ELSE IF h \in DataBlocks THEN {"kindflip"}
                ELSE IF KindOf(h) = "aa" THEN {"xoffset", "xscale"} ELSE {"xoffset"}   \* expressions
 NoShadow == [none |-> TRUE]
 On(f) == <<f, "*">> \in Families
@@ -513,6 +515,7 @@ TagOp(h, t) ==
 \* plain attributes: every field of every node kind that save writes and deep_eq compares
 SetScalar(h, f, t) ==
   /\ On("scal") /\ f \in FieldsOf(h) /\ t \in ScalDom[f]
+  /\ f = "kindflip" => \A y \in Symbols : pay[y] # h      \* (nothing keeps a reference to the replaced object)
   /\ scal' = [scal EXCEPT ![h][f] = t]
   /\ op' = [name |-> "scal", h |-> h, f |-> f, t |-> t, res |-> NONE]
   /\ UNCHANGED <<treeVars, built, geomVars, symVars, symx, cfg, bytes, tags, entry, shadow>>
@@ -725,8 +728,10 @@ New(n, p, K) ==
 
 \* ---- the gtirb.proto.IR message save must write for IR i (PROTOBUF.md, proto/*.proto), as nested
 \* records; repeated fields whose order carries no meaning are sets.  UUIDs are node ids.
-BlockMsg(b) == [uuid |-> b, offset |-> off[b], size |-> bsz[b], kind |-> IF b \in CodeBlocks THEN "code" ELSE "data",
-                decode_mode |-> IF b \in CodeBlocks THEN scal[b]["decode_mode"] ELSE "-"]
+IsCode(b) == b \in CodeBlocks \/ (b \in DataBlocks /\ scal[b]["kindflip"] = "T")
+BlockMsg(b) == [uuid |-> b, offset |-> off[b], size |-> bsz[b], kind |-> IF IsCode(b) THEN "code" ELSE "data",
+                decode_mode |-> IF b \in CodeBlocks THEN scal[b]["decode_mode"]
+                                ELSE IF IsCode(b) THEN ScalDef["decode_mode"] ELSE "-"]
 ExprMsg(k, e) == [key |-> k, kind |-> KindOf(e), sym1 |-> ExprSym[e], sym2 |-> Sym2Of(e),
                   offset |-> scal[e]["xoffset"], scale |-> IF KindOf(e) = "aa" THEN scal[e]["xscale"] ELSE "-",
                   attrs |-> tags[e]]
@@ -747,7 +752,7 @@ EdgeMsg(e) == [src |-> e[1], tgt |-> e[2], label |-> e[3]]
 Content(i) == [uuid |-> i, version |-> scal[i]["version"], aux |-> tags[i],
                modules |-> {ModuleMsg(m) : m \in ToSet(mods[i])}, edges |-> {EdgeMsg(e) : e \in cfg[i]}]
 MsgOf(i) == [content |-> Content(i), module_order |-> mods[i],
-             vertices |-> Sub(S0, i) \cap CfgNodes]
+             vertices |-> {n \in Sub(S0, i) : n \in CfgNodes \/ (n \in DataBlocks /\ IsCode(n))}]
 
 \* what deep_eq of a node below the IR compares: its own message, and -- where it refers to another
 \* node (payload, entry point, the symbols of an expression) -- that node's deep content, not its UUID only
